@@ -59,7 +59,48 @@ def expected_overlap(struct_kind, pat_kind, replace_all):
     return any(removed[i] & removed[j] for i in range(len(removed)) for j in range(i + 1, len(removed)))
 
 
+def check_roles(spec):
+    """Asymmetric three-atom pattern C -1.2- N -1.5- C' on the chain C0 N1 C2 N3 C4 with the same alternating spacings: the two occurrences
+    (0, 1, 2) and (2, 3, 4) share atom 2, which is the *last* atom of one and the *first* atom of the other."""
+    from mofun import Atoms, replace_pattern_in_structure
+    from mofun.mofun import AtomsShouldNotBeDeletedTwice
+    xs = [5.0, 6.2, 7.7, 8.9, 10.4]
+    sx = [0.0, 1.2, 2.7]
+    with quiet():
+        S = Atoms(elements=list('CNCNC'), positions=np.array([[x, 5., 5.] for x in xs]), cell=geo.CELLS['cubic'] * 1.0)
+        sp = Atoms(elements=list('CNC'), positions=np.array([[x, 0., 0.] for x in sx]))
+        rel = {'replace-last': ['C', 'N', 'F'], 'replace-first': ['F', 'N', 'C'], 'replace-both-ends': ['F', 'N', 'F'], 'replace-middle': ['C', 'P', 'C']}[spec['pattern']]
+        rp = Atoms(elements=rel, positions=np.array([[x, 0., 0.] for x in sx]))
+    matches = [(0, 1, 2), (2, 3, 4)]
+    removed = [{m[i] for i in range(3) if spec['replace_all'] or rel[i] != 'CNC'[i]} for m in matches]
+    overlap = bool(removed[0] & removed[1])
+    must_raise = overlap and not spec['ignore']
+    random.seed(spec.get('rng', 0))
+    raised, res = None, None
+    with quiet():
+        try:
+            res = replace_pattern_in_structure(S, sp, rp, replace_all=spec['replace_all'], ignore_atoms_should_not_be_deleted_twice=spec['ignore'])
+        except AtomsShouldNotBeDeletedTwice:
+            raised = 'overlap'
+        except Exception as e:
+            raised = repr(e)
+    if raised not in (None, 'overlap'):
+        return "raised %s instead of handling the overlap" % raised
+    if must_raise and raised != 'overlap':
+        return "two matches remove atom 2 but no AtomsShouldNotBeDeletedTwice was raised (result has %d atoms)" % len(res.positions)
+    if not must_raise and raised == 'overlap':
+        return ("AtomsShouldNotBeDeletedTwice raised although no atom would be removed twice: the matches %r remove %r (atom 2 is %s)"
+                % (matches, removed, 'retained by one match and removed by the other' if (2 in removed[0]) != (2 in removed[1]) else 'retained by both'))
+    if res is not None and not overlap:
+        want = 5 - len(removed[0] | removed[1]) + sum(len(r) for r in removed)
+        if len(res.positions) != want:
+            return "result has %d atoms, expected %d (each structure atom removed at most once)" % (len(res.positions), want)
+    return None
+
+
 def check(spec):
+    if spec.get('structure') == 'roles':
+        return check_roles(spec)
     from mofun import replace_pattern_in_structure
     from mofun.mofun import AtomsShouldNotBeDeletedTwice
     S = chain(spec['structure'])
@@ -110,7 +151,8 @@ def run(rec, tier, seed):
     rec.rule = ("chains in which C-N occurrences share atoms (CNC, CNCNC) and a control with separate occurrences x 5 replacement patterns (shared "
                 "atom retained by both / removed by both / both retained / nothing shared / empty) x replace_all on/off x ignore flag on/off: "
                 "AtomsShouldNotBeDeletedTwice is raised iff two selected matches would remove the same atom, the replacement is non-empty and "
-                "the caller did not ask to ignore it. distinct = all combinations (exhaustive over this grid)")
+                "the caller did not ask to ignore it; plus an asymmetric three-atom pattern whose occurrences share an atom in different roles (retained by "
+                "one match, removed by the other / removed by both / retained by both) x the same flags. distinct = all combinations (exhaustive over this grid)")
     rec.exhaustive = True
     for st in ('CNC', 'CNCNC', 'separate'):
         for pk in ('keep-N', 'keep-C', 'keep-both', 'none-shared', 'empty', 'moved-N'):
@@ -121,3 +163,11 @@ def run(rec, tier, seed):
                     rec.case(repr(sorted(spec.items())), sample=spec if len(rec.samples) < 3 else None)
                     if msg:
                         rec.fail('overlap', 'overlap', "%s on %r" % (msg, spec), spec, 'C07/overlap')
+    for pk in ('replace-last', 'replace-first', 'replace-both-ends', 'replace-middle'):
+        for ra in (False, True):
+            for ig in (False, True):
+                spec = dict(structure='roles', pattern=pk, replace_all=ra, ignore=ig)
+                msg = check(spec)
+                rec.case(repr(sorted(spec.items())))
+                if msg:
+                    rec.fail('overlap', 'overlap', "%s on %r" % (msg, spec), spec, 'C07/overlap')
